@@ -54,6 +54,18 @@ def check18(ctx):
         return " ".join(b[-6:]), dict(events=b, failing_event=json.loads(lines[upto - 1]), validate_with="specs/TraceStore.tla"), "".join(lines[:upto])
 
     rc, nnew = report_violations(ctx, viols, start, by_id, describe)
+    # write errors of the file backend: the child-process runs of the crash family whose write fails with EFBIG
+    ftrace = os.path.join(ctx.scratch, "file.ndjson")
+    run_driver(ctx, drv, ["filecrash", "-seed", str(ctx.seed), "-n", "8" if quick else "60", "-scratch", ctx.sub("files2"), "-out", ftrace], timeout=3000)
+    ffiles, fchunks, fstart, freports = validate_parallel(ctx, "TraceFile.tla", "TraceFile.cfg", ftrace, 2, is_start=lambda ln: True, ident=lambda ln: json.loads(ln)["id"] + 10000000)
+    fstat, fviols = collect(ffiles, freports)
+    for v in fviols:
+        v["tr"] += 10000000
+    fby = {json.loads(c[0])["id"] + 10000000: c for c in fchunks}
+    rc2, nnew2 = report_violations(ctx, fviols, fstart, fby, lambda lines, upto, v: ("file write cut at byte %d of %d (%s): child %s" % (
+        json.loads(lines[0])["limit"], json.loads(lines[0])["len"], json.loads(lines[0])["mode"], json.loads(lines[0])["child"]), dict(event=json.loads(lines[0])), lines[0]))
+    rc, nnew = max(rc, rc2), nnew + nnew2
+    stat["file_write_errors"] = fstat.get("ioerr", 0)
     cov = dict(states=states, transitions=trans, traces_validated_against_impl=len(chunks), samples=[brief(c)[:8] for c in chunks[:3]],
                exercised=stat, design_level=mc, exhaustive=False,
                rule="design level: every interleaving of 3 clients' Store/Load begin/end steps on 2 names with up to 2 injected errors, per backend mapping; "
